@@ -48,6 +48,9 @@ pub enum SeedSpec {
     /// five tracks (one per kind) with every metadata / layout variant applied at once and a
     /// leading free box in every container that tolerates one
     MetaAll { seed: u64 },
+    /// many HEVC traks whose parameter-set lengths are each small enough for their box but chain
+    /// from trak to trak into planted data (every unit individually bounded, the sum is not)
+    HopChain { seed: u64 },
 }
 
 impl SeedSpec {
@@ -69,6 +72,7 @@ impl SeedSpec {
             SeedSpec::Nest { .. } => "nest",
             SeedSpec::BigTable { .. } => "big_table",
             SeedSpec::MetaAll { .. } => "meta_all",
+            SeedSpec::HopChain { .. } => "hop_chain",
         }
     }
 }
@@ -998,6 +1002,7 @@ pub fn build(spec: &SeedSpec) -> SeedImage {
         SeedSpec::Nest { seed } => SeedImage { bytes: nest_image(*seed), init_len: None },
         SeedSpec::BigTable { seed } => SeedImage { bytes: big_table_image(*seed), init_len: None },
         SeedSpec::MetaAll { seed } => SeedImage { bytes: meta_all_image(*seed), init_len: None },
+        SeedSpec::HopChain { seed } => SeedImage { bytes: hop_chain_image(*seed), init_len: None },
         SeedSpec::Scale { seed } => {
             let (b, l) = scale_image(*seed);
             SeedImage { bytes: b, init_len: l }
@@ -1023,6 +1028,9 @@ pub fn gen_spec(r: &mut Rng) -> SeedSpec {
     }
     if r.chance(1, 150) {
         return SeedSpec::Nest { seed: r.below(1 << 30) };
+    }
+    if r.chance(1, 500) {
+        return SeedSpec::HopChain { seed: r.below(1 << 30) };
     }
     if r.chance(1, 300) {
         return SeedSpec::BigTable { seed: r.below(1 << 30) };
@@ -1653,6 +1661,83 @@ pub fn length_chain_image(seed: u64) -> Vec<u8> {
     out
 }
 
+/// "Hop chain" image: T copies of a valid HEVC trak whose hvcC declares N parameter sets. Every
+/// length is the same value v, small enough to fit the box on its own; the box holds only the
+/// first unit. Traks are exactly 2 x (v + 2) bytes long and filled with the byte pattern of v, so
+/// a parser that bounds each unit by the box size but not by what is left of the box hops from
+/// trak to trak (two hops per trak) and on through planted filler behind the movie header,
+/// copying about (T - i) x trak bytes for trak i: T^2 work on a file of T x trak + filler bytes.
+/// A parser that bounds the units by the box rejects the second unit of the first trak.
+pub fn hop_chain_image(seed: u64) -> Vec<u8> {
+    let mut r = Rng::new(seed ^ 0x40B5);
+    let t = 120 + r.below(80) as usize;
+    let b = *r.pick(&[0x06u8, 0x08, 0x0A]);
+    let v = b as usize * 257; // every 16-bit read of the filler gives v, at any alignment
+    let sc = MuxScenario {
+        cfg: MovieCfg { major: *b"isom", minor: 512, compat: vec![], timescale: 1000 },
+        ops: vec![
+            Op::AddTrack(TrackCfg { kind: Kind::Hevc, track_type: 0, timescale: 1000, language: "und".into(), width: 16, height: 16, sps: vec![0x67, 0x42, 0, 0x1f], pps: vec![0x68], aac_profile: 2, freq_index: 3, chan_conf: 2, bitrate: 0 }),
+            Op::End,
+        ],
+        start_pos: 0,
+        io: IoKnobs::plain(),
+        preexisting: 0,
+        fault: None,
+    };
+    let base = mux_bytes(&sc);
+    let n_units = (2 * t + 150) as u16;
+    // hvcC of total size h: 22 configuration bytes, one array (type, count), then filler
+    let with_hvcc = |h: usize| -> Option<Vec<u8>> {
+        let mut img = base.clone();
+        let nodes = walk(&img);
+        let hn = nodes.iter().find(|n| n.is(b"hvcC"))?;
+        if hn.size < hn.hdr + 23 || h < 8 + 26 {
+            return None;
+        }
+        let mut body = img[hn.body()..hn.body() + 22].to_vec();
+        body.push(1);
+        body.push(0x20);
+        body.extend_from_slice(&n_units.to_be_bytes());
+        body.resize(h - 8, b);
+        let nb = bx(b"hvcC", &body);
+        let (st, sz, par) = (hn.start, hn.size, hn.parent);
+        splice(&mut img, &nodes, par, st, sz, &nb);
+        Some(img)
+    };
+    let h0 = v + 64;
+    let Some(probe) = with_hvcc(h0) else { return base };
+    let trak_len0 = match walk(&probe).iter().find(|n| n.depth == 1 && n.is(b"trak")) {
+        Some(n) => n.size,
+        None => return base,
+    };
+    let overhead = trak_len0 - h0;
+    let want = 2 * (v + 2);
+    if want < overhead + v + 64 {
+        return base;
+    }
+    let Some(img) = with_hvcc(want - overhead) else { return base };
+    let nodes = walk(&img);
+    let (Some(ftyp), Some(mvhd), Some(trak)) = (nodes.iter().find(|n| n.depth == 0 && n.is(b"ftyp")), nodes.iter().find(|n| n.is(b"mvhd")), nodes.iter().find(|n| n.depth == 1 && n.is(b"trak"))) else {
+        return base;
+    };
+    if trak.size != want {
+        return base;
+    }
+    let trak_bytes = img[trak.start..trak.end()].to_vec();
+    let mut moov_kids = img[mvhd.start..mvhd.end()].to_vec();
+    for i in 0..t {
+        let mut tb = trak_bytes.clone();
+        let tk = 8 + 8 + 4 + 8;
+        tb[tk..tk + 4].copy_from_slice(&(i as u32 + 1).to_be_bytes());
+        moov_kids.extend_from_slice(&tb);
+    }
+    let mut out = cat(&[&img[ftyp.start..ftyp.end()], &bx(b"moov", &moov_kids)]);
+    // planted filler: room for the longest chain (that of the first trak) and a margin
+    let planted = (n_units as usize + 8) * (v + 2);
+    out.extend(bx(b"free", &vec![b; planted]));
+    out
+}
+
 /// "Descriptor chain" image: one AAC track whose sample table holds K sample-description boxes
 /// (a parser keeps the last), each with an esds whose ES descriptor declares a length reaching
 /// far beyond the box, into zero filler behind the movie header. Descriptor walking costs a few
@@ -1841,6 +1926,36 @@ mod grammar_tests {
 mod chain_tests {
     use super::*;
     use std::io::Cursor;
+    /// Hop-chain images: traks are exactly two hops long, the image tiles, and a parser that
+    /// bounds parameter sets by their box refuses the second unit of the first trak.
+    #[test]
+    fn hop_chain_images_have_the_intended_geometry() {
+        for seed in 0..6 {
+            let img = hop_chain_image(seed);
+            let nodes = walk(&img);
+            let traks: Vec<&Node> = nodes.iter().filter(|n| n.depth == 1 && n.is(b"trak")).collect();
+            assert!(traks.len() >= 120, "seed {seed}: {} traks", traks.len());
+            let hv = nodes.iter().find(|n| n.is(b"hvcC")).unwrap();
+            let v = be32(&img, hv.body() + 26) as usize >> 16; // first unit length
+            assert_eq!(traks[0].size, 2 * (v + 2), "seed {seed}");
+            assert!(traks.iter().all(|t| t.size == traks[0].size));
+            assert_eq!(nodes.iter().filter(|n| n.depth == 0).map(|n| n.size).sum::<usize>(), img.len());
+            // follow the chain of the first trak independently: every length read is v, to the end
+            let n_units = (be32(&img, hv.body() + 22) & 0xFFFF) as usize;
+            let mut pos = hv.body() + 26;
+            for k in 0..n_units {
+                assert!(pos + 2 <= img.len(), "seed {seed}: chain leaves the file at unit {k}");
+                let l = (img[pos] as usize) << 8 | img[pos + 1] as usize;
+                assert_eq!(l, v, "seed {seed}: unit {k} at {pos}");
+                pos += 2 + l;
+            }
+            assert!(pos <= img.len());
+            match mp4::Mp4Reader::read_header(Cursor::new(img.clone()), img.len() as u64) {
+                Ok(_) => panic!("seed {seed}: opened"),
+                Err(e) => assert!(format!("{e}").contains("hvcC"), "seed {seed}: {e}"),
+            }
+        }
+    }
     #[test]
     fn length_chain_images_are_well_formed_up_to_the_chain() {
         for seed in 0..5 {
